@@ -19,22 +19,25 @@ import (
 
 // TokenSpec describes a token as its issuer intends it.
 type TokenSpec struct {
-	Type      string // "dlg" | "inv"
-	Iss       *Principal
-	Aud       *Principal // dlg: required; inv: optional
-	Sub       *Principal // dlg: optional; inv: required
-	Cmd       string
-	Pol       ref.Policy // dlg
-	PolIPLD   bool
-	Args      ref.V // inv: map
-	Prf       []cid.Cid
-	Meta      ref.V // map, possibly empty
-	Nonce     []byte
-	Nbf, Exp  *time.Time
-	Iat       *time.Time // inv; NoIat=true -> absent; nil -> constructor default (now)
-	NoIat     bool
-	Cause     *cid.Cid
-	ArgsOrder []int
+	Type    string // "dlg" | "inv"
+	Iss     *Principal
+	Aud     *Principal // dlg: required; inv: optional
+	Sub     *Principal // dlg: optional; inv: required
+	Cmd     string
+	Pol     ref.Policy // dlg
+	PolIPLD bool
+	Args    ref.V // inv: map
+	Prf     []cid.Cid
+	Meta    ref.V // map, possibly empty
+	Nonce   []byte
+	// EmptyNonce: ask for an empty nonce (invocation.WithEmptyNonce / WithNonce of a non-nil
+	// empty slice): the constructor may refuse or substitute, but what it returns must round-trip
+	EmptyNonce bool
+	Nbf, Exp   *time.Time
+	Iat        *time.Time // inv; NoIat=true -> absent; nil -> constructor default (now)
+	NoIat      bool
+	Cause      *cid.Cid
+	ArgsOrder  []int
 }
 
 // RandomSel draws a small valid selector.
@@ -130,7 +133,9 @@ func RandomSpec(r *rand.Rand, typ string, o SpecOpts) *TokenSpec {
 			s.Meta.M = append(s.Meta.M, ref.KV{K: k, V: v})
 		}
 	}
-	if has(40) {
+	if r.IntN(25) == 0 {
+		s.EmptyNonce = true
+	} else if has(40) {
 		s.Nonce = Bytes(r, 12+r.IntN(53))
 		if r.IntN(12) == 0 && !o.NoBig {
 			s.Nonce = Bytes(r, Pick(r, []int{1023, 1024, 1025, 3000}))
@@ -270,7 +275,9 @@ func (s *TokenSpec) Build() (token.Token, error) {
 		if s.Nbf != nil {
 			opts = append(opts, delegation.WithNotBefore(*s.Nbf))
 		}
-		if s.Nonce != nil {
+		if s.EmptyNonce {
+			opts = append(opts, delegation.WithNonce([]byte{}))
+		} else if s.Nonce != nil {
 			opts = append(opts, delegation.WithNonce(s.Nonce))
 		}
 		for _, e := range s.Meta.M {
@@ -299,7 +306,9 @@ func (s *TokenSpec) Build() (token.Token, error) {
 		} else if s.Iat != nil {
 			opts = append(opts, invocation.WithInvokedAt(*s.Iat))
 		}
-		if s.Nonce != nil {
+		if s.EmptyNonce {
+			opts = append(opts, invocation.WithEmptyNonce())
+		} else if s.Nonce != nil {
 			opts = append(opts, invocation.WithNonce(s.Nonce))
 		}
 		if s.Cause != nil {
